@@ -134,7 +134,38 @@ def c12(tier):
                     assumptions=TRUST)
 
 
+def c06(tier):
+    c = new_check("C06", tier)
+    for model, cfg in cfgs("mc/MC_Resolve", tier, [""]):
+        mc_replay(c, model, cfg, "all (base, reference) pairs of the component vocabularies + the 42 examples of RFC 3986 5.4")
+    return c.finish(rule="bases x references composed from scheme/authority/path/query/fragment vocabularies, every 5.2.2 "
+                         "branch with dot and empty segments; expected = set of admissible results computed by spec/Resolve.tla",
+                    assumptions=TRUST + ["RFC 3986 5.2.2-5.2.4, 5.3 transcription in spec/Resolve.tla (reproduces all 42 "
+                                         "examples of section 5.4, checked by TLC)"])
+
+
+def c07(tier):
+    c = new_check("C07", tier)
+    for model, cfg in cfgs("mc/MC_Equiv", tier, [""]):
+        mc_replay(c, model, cfg, "groups of colliding values per comparable type; all pairs compared with the class key")
+    return c.finish(rule="all pairs of each group of values built to collide (percent-encoded vs literal, dot segments, "
+                         "absent vs empty, ill-formed escapes); expected equality = same Canon computed by spec/Equiv.tla",
+                    assumptions=TRUST)
+
+
+def c08(tier):
+    c = new_check("C08", tier)
+    for model, cfg in cfgs("mc/MC_Equiv", tier, [""]):
+        mc_replay(c, model, cfg, "cmp/partial_cmp/hash of all pairs, owned vs borrowed, Borrow views, rank certificate of the order")
+    return c.finish(rule="same groups as C07; order laws decided on the full observed matrix through a rank certificate "
+                         "(total preorder iff ord[i][j] = sign(rank i - rank j) for all pairs)",
+                    assumptions=TRUST + ["std::collections::hash_map::DefaultHasher with fixed keys"])
+
+
 PIPELINES = {
+    "C06": c06,
+    "C07": c07,
+    "C08": c08,
     "C09": c09,
     "C12": c12,
     "C01": c01,
